@@ -464,6 +464,17 @@ pub fn run_c14(tier: Tier, seed: u64, index: u64, scratch: &Scratch, rec: &mut R
                     t.labels.push(l);
                 }
             }
+            // now and then the clock crosses the expiry between two reads of the same call
+            if r.chance(1, 6) {
+                if let Some((e, _)) = crate::refmodel::rfc3339_instant(&t.root.layout.expires) {
+                    let start = t.clock[0];
+                    if e >= start.0 {
+                        t.clock = vec![start, (e + 1, 0), (e + 86_400, 0)];
+                        t.labels.push("JUMP-ACROSS-EXPIRY".into());
+                    }
+                }
+            }
+            t.tz = if r.chance(1, 4) { Some(r.pick(&["XYZ10", "ABC-14", "garbage", ""]).to_string()) } else { None };
             write_current(scratch, &Trace::Supply(t.clone()));
             exec_supply("C14", &t, scratch, rec, seed, index);
         }
